@@ -20,7 +20,7 @@ def run(chk):
         if outcome(l_)[0] == 'ok':
             chk.oracle_fail('unbalanced-accepted', m_, t_, 'accepted', 'rejected', 'a file with a surplus bracket (label / interface element at the end of a block) is accepted')
     rng = random.Random(chk.seed)
-    n = 600 if chk.tier == 'quick' else 10000
+    n = 600 if chk.tier == 'quick' else 4000
     m = 4 if chk.tier == 'quick' else 16
     chk.rule = ('file-mode inputs judged whenever the parser says Ok: %d generated valid programs, 1-3 token deletions / insertions / duplications / swaps of them and of the corpus files (%d mutants each), token soup, the file-mode exhaustive context streams, and EVERY single-token deletion, duplication and adjacent swap of every corpus file; '
                 'oracle: identifier and literal leaves of the tree = identifier and literal tokens of the source (text, offset, each once, in order); brackets balanced; package clause first, imports before other declarations.  non-trivial: accepted inputs; distinct by text.' % (n, m))
